@@ -810,8 +810,8 @@ def c04(ctx):
            "states": model.distinct + ns, "transitions": model.generated + t1.get("targets_covered", 0),
            "traces_validated_against_impl": ok, "exhaustive": True}
     return "fault_enumeration", cov, ["a SIGKILL models the process dying; power loss is decided on the model (AllOrNothingPower) given that the recorded "
-                                      "call order is a behaviour of AtomicFile (fsync before rename)", "rename durability without a directory fsync is a "
-                                      "file-system assumption stated in AtomicFile.tla"]
+                                      "calls satisfy FileSys!ReplaceFlushed (complete and fsynced before the rename)", "rename durability without a directory fsync is a "
+                                      "file-system assumption stated in AtomicFile.tla / FileSys.tla"]
 
 
 # ----------------------------------------------------------------------------- C05
@@ -1013,7 +1013,7 @@ def store_check(ctx, fams, profiles, n_quick, n_thorough, explanation, extra=Non
 def c10(ctx):
     cov = store_check(ctx, ["init"], ["init"], 150, 2500,
                       "Store.tla models construction: cache load (only a well-formed document is used), stubs, init rounds (one Get per missing "
-                      "secret per round, never for a secret already obtained), doubling back-off 1 ms..4096 ms, the caller's deadline, the final "
+                      "secret per round, never for a secret already obtained), a pause between rounds that is positive and at most a few seconds, the caller's deadline, the final "
                       "flush. TLC checks InitOK / LookupGate / HandleNeverDangles over declared sets x cache classes x failure scripts x deadlines; "
                       "random scripted-service histories of the real NewStore under testing/synctest (virtual time) are validated line by line: every "
                       "request, its timestamp (so the back-off delays and the prompt return at the deadline are exact), the cache write and the return")
@@ -1365,7 +1365,7 @@ def c13(ctx):
     return "model_checking", cov, ["malformed = not a well-formed document by construction (truncation, missing/null/mistyped members, empty name, non-object, "
                                    "trailing or random bytes); inputs whose treatment encoding/json leaves open (duplicate keys, case-variant names, extra "
                                    "members, overflowing numbers, null) only have to start without panic and serve the cache's or the service's value",
-                                   "SIGKILL models the process dying during FileCache.Write; power loss is decided on AtomicFile.tla given the validated call order"]
+                                   "SIGKILL models the process dying during FileCache.Write; power loss is decided on the model (FileSys!ReplaceFlushed, AllOrNothingPower) given the recorded calls"]
 
 
 # ----------------------------------------------------------------------------- C20
@@ -1591,7 +1591,7 @@ def c17(ctx):
            "uploads_observed": r["counters"].get("uploads", 0), "database_writes": r["counters"].get("writes", 0),
            "server_new_uploads": r2["counters"].get("uploads", 0), "apalache_inductive_invariant": apal,
            "explanation": "Backup.tla models the loop step by step (check the generation / read the live file / request reaches the bucket / outcome incl. the "
-                          "five-minute limit / wait a minute / exit on cancellation) with database writes, a bucket that answers, fails or stalls, "
+                          "client's time limit / wait at least a minute, at most MaxWait / exit on cancellation) with database writes, a bucket that answers, fails or stalls, "
                           "cancellation and an explicit clock that cannot pass a due step. TLC checks Consistent, ChangeDriven, RateLimit, Quiescent, "
                           "CoverExact and Settled over all bounded timelines. The real loop (hook server.VerifPeriodicBackup) runs under testing/synctest "
                           "against a real db.DB and an in-memory S3 endpoint on random timelines (write bursts, idle stretches of up to 10 minutes, bucket "
